@@ -257,13 +257,30 @@ def model_run(outdir):
     return results, errors
 
 
-def tie(outdir):
-    """Run the model on the harness' cases and diff with the implementation's answers."""
+def canon_rows_multiset(x):
+    """ROWS:a|b|c -> rows sorted (the order of result rows is not part of the compared observable)"""
+    if x.startswith("ROWS:"):
+        return "ROWS:" + "|".join(sorted(x[5:].split("|")))
+    return x
+
+
+CANON = {"rows-multiset": canon_rows_multiset}
+
+
+def tie(outdir, canon=None):
+    """Run the model on the harness' cases and diff with the implementation's answers.
+    Cases of kind "tie" compare the MODEL of the code with the code (a mismatch breaks the
+    correspondence); cases of kind "oracle" compare the property's SPEC with the code (a mismatch is
+    a failure of the property on that input)."""
     impl = [json.loads(l) for l in open(os.path.join(outdir, "impl.jsonl"))]
     summary = json.load(open(os.path.join(outdir, "summary.json")))
     results, errors = model_run(outdir)
+    cf_ = CANON.get(canon, lambda x: x)
     disagreements = []
+    spec_failures = []
+    order_only = 0
     nontrivial_keys = set()
+    n_tie = n_oracle = 0
     for c in impl:
         lst = results.get(c["shard"])
         if lst is None:
@@ -274,10 +291,26 @@ def tie(outdir):
         m = lst[c["idx"]]
         if c.get("nontrivial"):
             nontrivial_keys.add(c.get("key") or json.dumps(c["input"], sort_keys=True))
+        kind = c.get("kind", "tie")
+        if kind == "oracle":
+            n_oracle += 1
+        else:
+            n_tie += 1
         if m != c["impl"]:
-            disagreements.append({"input": c["input"], "model": m, "impl": c["impl"]})
+            if cf_(m) == cf_(c["impl"]):
+                order_only += 1
+                continue
+            if kind == "oracle":
+                spec_failures.append({"what": "implementation differs from the specification", "input": c["input"],
+                                      "detail": {"spec": m, "impl": c["impl"]}, "class": c.get("class")})
+            else:
+                disagreements.append({"input": c["input"], "model": m, "impl": c["impl"]})
+    summary["oracle_failures"] = summary.get("oracle_failures", []) + spec_failures
     return {
         "cases": len(impl),
+        "tie_cases": n_tie,
+        "oracle_cases": n_oracle,
+        "order_only_differences": order_only,
         "distinct_nontrivial": len(nontrivial_keys),
         "disagreements": disagreements,
         "model_errors": errors,
